@@ -390,6 +390,33 @@ func (p c16) RunBatch(c *fw.Ctx) {
 			}
 		}
 	}
+	// very many distinct literals of each kind lexed by one process (one input each): every one still reads as its own bytes
+	// (a table of shared tokens keyed by anything shorter than the literal starts confusing them at this scale)
+	{
+		nLit := c.Pick(300000, 1200000)
+		var ids, nums, strs strings.Builder
+		for k := 0; k < nLit; k++ {
+			v := uint64(k)*2654435761 + uint64(c.Batch)*7919 + uint64(c.Seed)*104729
+			// identifiers: letters in base 26, numbers: decimal, strings: hex
+			var w [12]byte
+			n := 0
+			for x := v; n < 7; n++ {
+				w[n] = 'a' + byte(x%26)
+				x /= 26
+			}
+			ids.Write(w[:n])
+			ids.WriteByte(' ')
+			if k%3 == 0 {
+				fmt.Fprintf(&nums, "%d ", v%100000000000)
+				fmt.Fprintf(&strs, "\"s%x\" ", v)
+			}
+		}
+		for _, in := range []string{ids.String(), nums.String(), strs.String()} {
+			c.Begin(map[string]any{"phase": "many-distinct-literals", "batch": c.Batch, "bytes": len(in)})
+			p.one(c, []byte(in), false)
+			c.Count("many_literal_inputs", 1)
+		}
+	}
 	// random longer inputs
 	nRand := c.Pick(15000, 100000)
 	for i := 0; i < nRand; i++ {
